@@ -366,6 +366,25 @@ func vevent(props ...Prop) Comp {
 	return Comp{Name: "VEVENT", Props: append([]Prop{{Name: "UID", Value: "u1"}}, props...)}
 }
 
+// withTZ rewrites the UTC date-times of an event (DTSTART, DTEND, EXDATE) as local times with a TZID parameter that
+// denote the same instants (added in round 6: events with a time zone reference are the common case in real calendars;
+// the grid straddles the offset change of America/New_York on 2024-03-10)
+func withTZ(c Comp, tz string) Comp {
+	out := c
+	out.Props = nil
+	for _, p := range c.Props {
+		if (p.Name == "DTSTART" || p.Name == "DTEND" || p.Name == "EXDATE") && len(p.Value) == 16 {
+			if tt, err := time.Parse("20060102T150405Z", p.Value); err == nil {
+				p = Prop{Name: p.Name, Value: tt.In(vev.Zone(tz)).Format("20060102T150405"), Params: append([][2]string{{"TZID", tz}}, p.Params...)}
+			}
+		}
+		out.Props = append(out.Props, p)
+	}
+	return out
+}
+
+var eventZones = []string{"America/New_York", "Asia/Kolkata", "Australia/Lord_Howe", "Europe/Berlin", "Pacific/Apia"}
+
 // (a) complete interval orderings
 func TestEnumerateIntervals(t *testing.T) {
 	if vev.ReplayFile() != "" {
@@ -426,6 +445,10 @@ func TestEnumerateIntervals(t *testing.T) {
 			f := CompF{Name: "VCALENDAR", Comps: []CompF{{Name: "VEVENT", Start: r.s, End: r.e}}}
 			run(t, nil, Case{Mode: "match", Filter: f, Objects: []Comp{vcal(e.ev)}}, "a/"+e.form)
 			run(t, nil, Case{Mode: "match", Filter: f, Objects: []Comp{vcal(e.ev)}, QZone: 19800}, "a/"+e.form+"/qzone")
+			if e.form == "dtend" || e.form == "duration" || e.form == "duration0" || e.form == "instant" {
+				tz := eventZones[idx%len(eventZones)]
+				run(t, nil, Case{Mode: "match", Filter: f, Objects: []Comp{vcal(withTZ(e.ev, tz))}, QZone: []int{0, -28800}[idx%2]}, "a/"+e.form+"/tzid")
+			}
 			// the same range as a property time-range on DTSTART, alone and next to the component range, in two
 			// zones: one filter must read a zone-less value one way (added after the thorough tier found
 			// matchPropTimeRange reading open-start ranges in UTC)
@@ -689,6 +712,9 @@ func genComp(depth int) *rapid.Generator[Comp] {
 		}
 		if c.Name == "VEVENT" {
 			c.Props = append(c.Props, genEventTimes(rt)...)
+			if len(c.Props) > 0 && len(c.Props[len(c.Props)-1].Value) > 0 && !hasRRule(c) && rapid.IntRange(0, 3).Draw(rt, "tzid") == 0 {
+				c = withTZ(c, rapid.SampledFrom(eventZones).Draw(rt, "evzone"))
+			}
 		}
 		n := rapid.IntRange(0, 4).Draw(rt, "nprops")
 		for i := 0; i < n; i++ {
